@@ -56,6 +56,17 @@ type program struct {
 	InlineStop bool      // the producer whose Enqueue is the StopAfter-th to return calls the main Stop itself, right away
 	SecondStop string    // none | concurrent | after
 	Hook       *hookPlan // nil: free running
+	Chains     []chain   // objects whose call-back enqueues another object (from the writer goroutine), once
+}
+
+// chain: the first BatchWrite ("write") or BatchWriteDone ("done") of object From bumps and enqueues object To from
+// inside the call-back, i.e. on the writer goroutine (a dependent object that becomes dirty when its parent is persisted).
+// Programs with chains get a queue that can hold every object (an object is queued at most once at a time), because a
+// send from the writer goroutine into a full queue can never be drained by design.
+type chain struct {
+	From int    `json:"from"`
+	To   int    `json:"to"`
+	At   string `json:"at"`
 }
 
 func (p program) totalEnqueues() int {
@@ -86,6 +97,9 @@ func (p program) strings() []string {
 	}
 	if p.StopAfter > p.totalEnqueues() {
 		stop = "stop after all producers finished"
+	}
+	for _, c := range p.Chains {
+		out = append(out, fmt.Sprintf("chain: first %s call-back of o%d enqueues o%d", c.At, c.From, c.To))
 	}
 	if p.Hook != nil {
 		stop = fmt.Sprintf("HOOKED: park enqueue #%d of p%d at site %d, invoke Stop, then release", p.Hook.EnqIndex, p.Hook.Producer, p.Hook.Site)
@@ -185,6 +199,22 @@ type object struct {
 	skipped   atomic.Int64 // Enqueue found it already scheduled
 	writes    atomic.Int64
 	dones     atomic.Int64
+
+	chainTo *object
+	chainAt string
+	chained atomic.Bool
+}
+
+// fireChain enqueues the dependent object from inside a call-back (once).
+func (o *object) fireChain(at string) {
+	if o.chainTo == nil || o.chainAt != at || !o.chained.CompareAndSwap(false, true) {
+		return
+	}
+	c := o.chainTo
+	v := c.version.Add(1)
+	t0 := o.r.clock.Tick()
+	o.r.bw.Enqueue(c)
+	o.r.add(rec{Kind: "enqueue", Obj: c.id, Version: v, Who: fmt.Sprintf("callback(%s of o%d)", at, o.id), T0: t0, T1: o.r.clock.Tick()})
 }
 
 func (o *object) BatchWriteScheduled() bool {
@@ -210,11 +240,18 @@ func (o *object) BatchWrite(muts kvstore.BatchedMutations) {
 	if lb, ok := muts.(*logBatch); ok {
 		batch = lb.id
 	}
+	if v%2 == 0 {
+		// even versions are written as "delete the old entry, then store the new one" (the last operation per key counts)
+		if err := muts.Delete(objKey(o.id)); err != nil {
+			panic(err)
+		}
+	}
 	if err := muts.Set(objKey(o.id), b[:]); err != nil {
 		panic(err)
 	}
 	o.writes.Add(1)
 	o.r.add(rec{Kind: "write", Obj: o.id, Version: v, Batch: batch, T0: t})
+	o.fireChain("write")
 }
 
 func (o *object) BatchWriteDone() {
@@ -225,6 +262,7 @@ func (o *object) BatchWriteDone() {
 	}
 	o.dones.Add(1)
 	o.r.add(rec{Kind: "done", Obj: o.id, Version: v, T0: t})
+	o.fireChain("done")
 }
 
 // logKV wraps the store so that the harness sees every Commit / Cancel of the writer's batches.
@@ -331,6 +369,9 @@ func execute(p program) (res result) {
 		kvstore.WithBatchTimeout(time.Duration(p.Cfg.TimeoutUS)*time.Microsecond))
 	for i := 0; i < p.NObj; i++ {
 		r.objs = append(r.objs, &object{id: i, r: r})
+	}
+	for _, c := range p.Chains {
+		r.objs[c.From].chainTo, r.objs[c.From].chainAt = r.objs[c.To], c.At
 	}
 	currentRun.Store(r)
 	defer currentRun.Store(nil)
@@ -652,6 +693,14 @@ func (r *run) judge(tInvoke int64, mainStop *stopRec, labels map[string]bool) (r
 	}
 	if racing > 0 {
 		labels["enqueue_overlaps_stop"] = true
+	}
+	for _, e := range enqueues {
+		if strings.HasPrefix(e.Who, "callback(") {
+			labels["enqueue_from_callback"] = true
+			if e.T1 > tInvoke {
+				labels["enqueue_from_callback_after_stop_invoked"] = true
+			}
+		}
 	}
 	if r.p.Cfg.QueueSize == 0 {
 		labels["queue_unbuffered"] = true
